@@ -583,8 +583,18 @@ def validate (x : Ctx) (st : State) (i : Input) : State × Outcome :=
 
 /-! ## validateP2PMessage (thin wrapper: envelope, sizes, topic) -/
 
+/-- result of `verifySignature` for the envelope (there always is a verifier once the fork is active) -/
+inductive SigResult | valid | operatorNotFound | invalid
+deriving Repr, DecidableEq
+
+def SigResult.toEnv : SigResult → EnvSig
+  | .valid => .valid
+  | .operatorNotFound => .operatorNotFound
+  | .invalid => .invalid
+
 structure P2PInput where
   signedDecodeOk : Bool     -- commons.DecodeSignedSSVMessage succeeded (only consulted after the fork)
+  sig : SigResult           -- verifySignature(payload, operatorID, signature) (only consulted after the fork)
   payloadLen : Nat          -- len(messageData) after unwrapping
   netDecodeOk : Bool        -- commons.DecodeNetworkMsg succeeded
   topicOk : Bool            -- topic rule (property C18)
@@ -605,6 +615,6 @@ def validateP2P (x : Ctx) (st : State) (p : P2PInput) : State × Outcome :=
       rejectIf (!p.netDecodeOk) .MalformedPubSubMessage,
       rejectIf (!p.topicOk) .TopicNotFound] with
   | .error e => (st, Outcome.ofChk (.error e))
-  | .ok _ => validate x st { p.inner with envSig := if active then p.inner.envSig else .none }
+  | .ok _ => validate x st { p.inner with envSig := if active then p.sig.toEnv else .none }
 
 end Ssv.Validation
